@@ -136,4 +136,99 @@ Proof.
   pose proof (b_run_concat p acts2 s1) as Hcat. fold r2 in Hcat. rewrite Hsame in Hcat. cbn in Hcat. congruence.
 Qed.
 
+(* ---- late time-out callbacks (XExpire / XDeliver): they never touch the batcher ---- *)
+Lemma bx_run_cons : forall p (a : bxaction T) acts xs,
+  bx_run p (a :: acts) xs =
+  (fst (bx_step p a xs) :: fst (bx_run p acts (snd (bx_step p a xs))), snd (bx_run p acts (snd (bx_step p a xs)))).
+Proof. reflexivity. Qed.
+
+Lemma xb_events_cons : forall (e : bxevent T) evs,
+  xb_events (e :: evs) = match e with XE e' => [e'] | _ => [] end ++ xb_events evs.
+Proof. reflexivity. Qed.
+
+Lemma bx_run_proj : forall p (acts : list (bxaction T)) xs,
+  b_run p (xb_actions acts) (bx_b xs) = (xb_events (fst (bx_run p acts xs)), bx_b (snd (bx_run p acts xs))).
+Proof.
+  intros p acts. induction acts as [|a acts IH]; intros xs; [reflexivity|].
+  rewrite bx_run_cons. cbn [fst snd]. rewrite xb_events_cons. destruct a as [a'| |i].
+  - change (xb_actions (XB a' :: acts)) with (a' :: xb_actions acts). rewrite b_run_cons.
+    cbn [bx_step fst snd bx_b app]. specialize (IH (mkBX (snd (b_step p a' (bx_b xs))) (bx_committed xs))).
+    cbn [bx_b] in IH. rewrite IH. reflexivity.
+  - change (xb_actions (XExpire :: acts)) with (xb_actions acts). cbn [bx_step].
+    destruct (armed (bx_b xs)); cbn [fst snd app]; [|apply IH].
+    exact (IH (mkBX (bx_b xs) (bx_committed xs ++ [z]))).
+  - change (xb_actions (XDeliver i :: acts)) with (xb_actions acts). cbn [bx_step].
+    destruct (nth_error (bx_committed xs) i); cbn [fst snd app]; [|apply IH].
+    exact (IH (mkBX (bx_b xs) (drop_nth i (bx_committed xs)))).
+Qed.
+
+Theorem batcher_concat_late_proof : forall p (acts : list (bxaction T)),
+  let r := bx_run p acts bx_init in
+  concat (flushed_of (xb_events (fst r))) ++ batch (bx_b (snd r)) = added_of (xb_actions acts).
+Proof.
+  intros p acts r. pose proof (bx_run_proj p acts bx_init) as H. fold r in H.
+  pose proof (batcher_concat_proof p (xb_actions acts)) as C. cbn [bx_init bx_b] in H. rewrite H in C. exact C.
+Qed.
+
+(* a committed callback carries a token that was current when it was set: never in the future, never negative *)
+Definition bxinv (xs : bxstate T) : Prop :=
+  binv (bx_b xs) /\ forall t, In t (bx_committed xs) -> 0 <= t <= token (bx_b xs).
+
+Lemma in_drop_nth : forall {A} i (l : list A) x, In x (drop_nth i l) -> In x l.
+Proof.
+  intros A i l. revert i. induction l as [|y l IH]; intros i x H; cbn in *.
+  - destruct i; contradiction.
+  - destruct i as [|i]; cbn in H; [now right|]. destruct H as [H|H]; [now left|right; now apply (IH i)].
+Qed.
+
+Lemma bxinv_step : forall p (xa : bxaction T) xs, bxinv xs -> bxinv (snd (bx_step p xa xs)).
+Proof.
+  intros p xa xs [Hb Hc]. destruct xa as [a'| |i]; cbn [bx_step].
+  - cbn [snd]. split; cbn [bx_b bx_committed]; [now apply binv_step|].
+    intros t Ht. specialize (Hc t Ht).
+    pose proof (b_run_token p [a'] (bx_b xs)) as [Hm _]. rewrite b_run_cons in Hm. cbn [snd b_run] in Hm. lia.
+  - destruct (armed (bx_b xs)) as [t0|] eqn:Ea; cbn [snd]; [|now split].
+    split; cbn [bx_b bx_committed]; [assumption|]. intros t Ht. apply in_app_or in Ht. destruct Ht as [Ht|[Ht|[]]].
+    + now apply Hc.
+    + subst t0. destruct Hb as [H0 Harm]. destruct (Harm t Ea) as [-> _]. lia.
+  - destruct (nth_error (bx_committed xs) i); cbn [snd]; [|now split].
+    split; cbn [bx_b bx_committed]; [assumption|]. intros t Ht. apply Hc. now apply in_drop_nth in Ht.
+Qed.
+
+Lemma bxinv_run : forall p (acts : list (bxaction T)) xs, bxinv xs -> bxinv (snd (bx_run p acts xs)).
+Proof.
+  intros p acts. induction acts as [|xa acts IH]; intros xs H; [assumption|].
+  rewrite bx_run_cons. cbn [snd]. apply IH. now apply bxinv_step.
+Qed.
+
+Lemma bxinv_init : bxinv (@bx_init T).
+Proof. split; [apply binv_init|]. intros t []. Qed.
+
+(* The token of a committed callback flushes something only while its own batch is still the current one and nothing has been
+   handed out since; the time-out of an already flushed batch flushes nothing, however late its callback runs. *)
+Theorem late_timeout_generation_proof : forall p (acts1 acts2 : list (bxaction T)) t l s3,
+  let xs1 := snd (bx_run p acts1 bx_init) in
+  let r2 := bx_run p acts2 xs1 in
+  In t (bx_committed xs1) ->
+  b_flush t (bx_b (snd r2)) = (l, s3) -> l <> [] ->
+  t = token (bx_b xs1) /\ concat (flushed_of (xb_events (fst r2))) = [].
+Proof.
+  intros p acts1 acts2 t l s3 xs1 r2 Hin Hflush Hl.
+  assert (I1 : bxinv xs1) by (apply bxinv_run, bxinv_init). destruct I1 as [_ Hc]. specialize (Hc t Hin).
+  destruct (b_flush_nonempty _ _ _ _ Hflush Hl) as [Hwhich _].
+  pose proof (bx_run_proj p acts2 xs1) as P. fold r2 in P.
+  destruct (b_run_token p (xb_actions acts2) (bx_b xs1)) as [Hmono Hsame]. rewrite P in Hmono, Hsame. cbn [fst snd] in Hmono, Hsame.
+  assert (Etok : token (bx_b (snd r2)) = token (bx_b xs1)).
+  { destruct Hwhich as [E|E]; [unfold current_batch in E; lia|lia]. }
+  split; [destruct Hwhich as [E|E]; [unfold current_batch in E; lia|lia]|now apply Hsame].
+Qed.
+
+Theorem late_timeout_of_flushed_batch_noop_proof : forall p (acts : list (bxaction T)) t,
+  let xs := snd (bx_run p acts bx_init) in
+  In t (bx_committed xs) -> t <> token (bx_b xs) -> b_flush t (bx_b xs) = ([], bx_b xs).
+Proof.
+  intros p acts t xs Hin Hne. assert (I : bxinv xs) by (apply bxinv_run, bxinv_init). destruct I as [_ Hc].
+  specialize (Hc t Hin). apply stale_token_noop_proof; [unfold current_batch; lia|assumption].
+Qed.
+
 End BatcherProofs.
